@@ -70,6 +70,12 @@ VH_NOINSTR static void vh_reg_fiber(fiber_t* f, int idx_unused) {
   vr_reg(&f->state, sizeof f->state, "F%d.state", idx);
   vr_reg((void*)&f->mpsc_fifo_node, 8, "F%d.node", idx);
   vr_reg((void*)&f->scratch, 8, "F%d.scratch", idx);
+#ifdef VH_REG_RESULT
+  /* join protocol cells: only harnesses whose model knows them ask for this */
+  vr_reg((void*)&f->result, 8, "F%d.result", idx);
+  vr_reg((void*)&f->join_info, 8, "F%d.join_info", idx);
+  vr_reg((void*)&f->detach_state, sizeof f->detach_state, "F%d.detach", idx);
+#endif
   if (f->mpsc_fifo_node) {
     vr_obj(f->mpsc_fifo_node, sizeof *f->mpsc_fifo_node, "N%d", idx);
     vr_reg((void*)&f->mpsc_fifo_node->next, 8, "N%d.next", idx);
@@ -122,7 +128,11 @@ VH_NOINSTR static void vh_rt_run_join(int kthreads, vh_op_fn fn, size_t stack) {
   }
   vr_note("spawn %d", vh_script.nfibers);
   for (int t = 0; t < vh_script.nfibers; t++) fiber_manager_schedule(fiber_manager_get(), vh_fibers[t]);
-  for (int t = 0; t < vh_script.nfibers; t++) fiber_join(vh_fibers[t], NULL);
+  for (int t = 0; t < vh_script.nfibers; t++) {
+    void* res = NULL;
+    fiber_join(vh_fibers[t], &res);
+    if (res != (void*)(long)(1000 + t)) vr_note("ORACLE join-result fiber %d returned %p", t, res);
+  }
   vr_set_done();
   (void)kthreads;
 }
